@@ -12,7 +12,7 @@ import (
 func init() {
 	Register(&Profile{Name: "durability-par2", Prop: "C01", Weight: 10, Quick: 14000, Thorough: 400000, Fn: func(r *Run) { par2Cycle(r, cycleOpts{}) }})
 	Register(&Profile{Name: "durability-par2-big", Prop: "C01", Weight: 1, Quick: 120, Thorough: 3000, Fn: func(r *Run) { par2Cycle(r, cycleOpts{big: true}) }})
-	Register(&Profile{Name: "verify-truth", Prop: "C03", Weight: 10, Quick: 16000, Thorough: 400000, Fn: func(r *Run) { par2Cycle(r, cycleOpts{separating: true}) }})
+	Register(&Profile{Name: "verify-truth", Prop: "C03", Weight: 10, Quick: 12000, Thorough: 400000, Fn: func(r *Run) { par2Cycle(r, cycleOpts{separating: true}) }})
 	Register(&Profile{Name: "write-discipline-par2", Prop: "C02", Weight: 6, Quick: 10000, Thorough: 250000, Fn: func(r *Run) { par2Cycle(r, cycleOpts{hostileRecovery: true}) }})
 }
 
